@@ -109,6 +109,11 @@ def handoff(chk, cases):
                     fs.reset(None)
                     fi.reset(None)
                     try:
+                        if tr == "iscsi":
+                            # the caller re-aims the command it already sent once (same field values) and sends it again
+                            d_ = cc._full_dict(c)
+                            d_["opcode"] = int(cmd.opcode.value)
+                            cmd.cdb = cmd.build_cdb(**d_)
                         devs[tr].execute(cmd)
                         got = fs.CALLS[-1]["cdb"] if tr == "sgio" else [x[1] for x in fi.LOG if x[0] == "command"][-1]["cdb"]
                         got = list(got)
